@@ -274,7 +274,12 @@ def drive(prop, clause, n_examples, seed, known, shrink_budget_s=90.0):
             return    # a case hit the wall-clock guard: abandon the clause (reported as inconclusive)
         if state["first_fail_t"] is not None and time.time() - state["first_fail_t"] > shrink_budget_s:
             return    # shrink budget used up: let Hypothesis finish quickly
+        if state.get("runaway"):
+            return    # the library exhausted the shard's memory limit on a case: every shrink attempt would take
+                      # minutes to do the same, so the first such case is reported as it is
         exc = evaluate(clause, case, stats, known)
+        if isinstance(exc, MemoryError):
+            state["runaway"] = True
         if exc is not None:
             if state["first_fail_t"] is None:
                 state["first_fail_t"] = time.time()
